@@ -1,20 +1,10 @@
 #!/bin/bash
-# Must-pass corpus: property-preserving edits (renamed locals, reordered independent statements, a helper extracted, changed
-# messages, early-return style). Each diff is applied to a scratch worktree of /repo's HEAD; every check must end with
-# status 0 and without a VIOLATION line. usage: run_benign.sh [props...]
+# Must-pass corpus: property-preserving edits (selftest/benign/*.diff: renamed locals, reordered independent statements, helpers
+# extracted or inlined, guard clauses, loops rewritten, switch <-> if). Each is applied to its own scratch worktree of /repo's
+# HEAD; every check must end with status 0 and without a VIOLATION line. usage: run_benign.sh [name prefix] ; JOBS=n
 cd /verif
-PROPS=${*:-C01 C02 C03 C04 C06 C07 C08 C09 C10 C11 C12 C13 C14 C15 C16 C17 C18}
-bad=0
-for d in selftest/benign/*.diff; do
-  WT=$(mktemp -d /tmp/acv-benign.XXXXXX); rmdir "$WT"
-  git -C /repo worktree add -q --detach "$WT" HEAD || exit 2
-  if ! git -C "$WT" apply "$PWD/$d" 2>/dev/null; then echo "BENIGN $(basename $d) SKIP patch-does-not-apply"; else
-    for P in $PROPS; do
-      GOVC_REPO="$WT" ./check $P quick > "$WT.log" 2>&1; RC=$?
-      if [ $RC -ne 0 ] || grep -q '^VIOLATION' "$WT.log"; then echo "BENIGN $(basename $d) ALARM property=$P exit=$RC"; grep -E '^(VIOLATION|ERROR|UNDECIDED)' "$WT.log" | head -4; bad=1; fi
-    done
-    echo "BENIGN $(basename $d) done"
-  fi
-  git -C /repo worktree remove --force "$WT" 2>/dev/null; rm -rf "$WT" "$WT.out" "$WT.log"; git -C /repo worktree prune
-done
-exit $bad
+JOBS=${JOBS:-4}
+ls selftest/benign/${1:-}*.diff | xargs -n1 basename | xargs -P "$JOBS" -I{} /verif/selftest/run_benign_one.sh {} 2>&1 | grep '^BENIGN' | sort | tee /tmp/benign.$$.out | grep -v DETAIL
+echo "BENIGN summary silent=$(grep -c ' silent$' /tmp/benign.$$.out) alarms=$(grep -c ' ALARM' /tmp/benign.$$.out)"
+grep DETAIL /tmp/benign.$$.out | cut -c1-260
+rm -f /tmp/benign.$$.out
